@@ -10,6 +10,8 @@ import MqttVerif.Model.PacketId
 import MqttVerif.Model.Api
 import MqttVerif.Model.Filter
 import MqttVerif.Model.Subs
+import MqttVerif.Model.Heap
+import MqttVerif.Model.Errors
 
 open Mqtt
 
@@ -150,6 +152,72 @@ def nodupSmall (ids : List Nat) : Bool :=
 def showNatList (l : List Nat) : String :=
   if l.isEmpty then "-" else String.intercalate "," (l.map toString)
 
+/-- scripted handler bodies for the C20 correspondence stream -/
+def mutOp (c : Char) : HandlerFn := fun h p =>
+  match h.msgs p with
+  | none => h
+  | some m =>
+    let setMsg (m' : MsgObj) : Heap := { h with msgs := fun a => if a = p then some m' else h.msgs a }
+    let buf := (h.bufs m.payload).getD []
+    let setBuf (b : Bytes) (h' : Heap) : Heap := { h' with bufs := fun a => if a = m.payload then some b else h'.bufs a }
+    match c with
+    | 'T' => setMsg { m with topic := [88] }
+    | 'P' => if m.plen > 0 then setBuf (buf.set 0 ((buf.getD 0 0) ^^^ 255)) h else h
+    | 'Z' => setBuf ((List.replicate m.plen 0) ++ buf.drop m.plen) h
+    | 'A' => setBuf (buf.take m.plen ++ [33]) (setMsg { m with plen := m.plen + 1 })
+    | 'R' => setMsg { m with plen := 0 }
+    | 'F' => setMsg { m with qos := (m.qos + 1) % 3, retain := !m.retain, dup := !m.dup, id := (m.id + 1) % 65536 }
+    | _ => h
+
+def scriptFn (s : String) : HandlerFn := fun h p => s.toList.foldl (fun h c => mutOp c h p) h
+
+def showView : Option MsgView → String
+  | none => "nil"
+  | some v => s!"{toHex v.topic}/{v.id}/{v.qos}/{showBool v.retain}/{showBool v.dup}/{toHex v.payload}"
+
+def c20Rounds : Nat → Heap → List HandlerFn → Nat → List String → Heap × List String
+  | 0, h, _, _, acc => (h, acc)
+  | n + 1, h, fs, p, acc =>
+    let (h', vs) := muxRun h fs p
+    c20Rounds n h' fs p (acc ++ vs.map showView)
+
+/-- build an error chain from a dotted path, innermost last: e.g. `W.R.F.C.s3`.
+    Every node really created gets identity 100 + (number of nodes created before it). -/
+def buildErr (parts : List String) : Option (Option E × Nat) :=
+  match parts.reverse with
+  | [] => none
+  | leaf :: ctors =>
+    let base : Option (Option E) :=
+      if leaf = "nil" then some none
+      else if leaf = "eof" then some (some (.leaf eofId))
+      else if leaf.startsWith "s" then (leaf.drop 1).toString.toNat?.map (fun k => some (.leaf (1 + k)))
+      else if leaf.startsWith "x" then (leaf.drop 1).toString.toNat?.map (fun k => some (.leaf (50 + k)))
+      else none
+    match base with
+    | none => none
+    | some b =>
+      ctors.foldlM (fun (acc : Option E × Nat) c =>
+        let (e, n) := acc
+        match c, e with
+        | "W", _ => match wrapError e (100 + n) with
+          | some (.wrap i x) => some (some (.wrap i x), n + 1)
+          | other => some (other, n)
+        | "R", _ => match wrapErrorWithRetry e (100 + n) (200 + n) with
+          | some (.retry i w x) => some (some (.retry i w x), n + 1)
+          | other => some (other, n)
+        | "F", some x => some (some (.fmtw (100 + n) x), n + 1)
+        | "C", some x => some (some (.conn (100 + n) x), n + 1)
+        | "T", some x => some (some (.rto (100 + n) x), n + 1)
+        | "D", some x => some (some (.field (100 + n) x), n + 1)
+        | _, _ => none) (b, 0)
+
+def targetId (s : String) : Option Nat :=
+  if s.startsWith "n" then (s.drop 1).toString.toNat?.map (100 + ·)
+  else if s.startsWith "s" then (s.drop 1).toString.toNat?.map (1 + ·)
+  else if s.startsWith "x" then (s.drop 1).toString.toNat?.map (50 + ·)
+  else if s = "eof" then some eofId
+  else none
+
 def handle (toks : List String) : Option String :=
   match toks with
   | ["rl", n] => do
@@ -214,6 +282,24 @@ def handle (toks : List String) : Option String :=
   | "subs" :: ops => do
     let calls ← ops.mapM parseSubOp
     pure (showSubList (calls.foldl applyCall []))
+  | "c20" :: _mode :: topic :: payload :: qos :: retain :: dup :: id :: rounds :: scripts => do
+    let pl ← parseDesc payload
+    let h0 : Heap := { msgs := fun _ => none, bufs := fun _ => none, next := 0 }
+    let (h1, b) := h0.allocBuf pl
+    let (h2, p) := h1.allocMsg { topic := ← parseDesc topic, id := ← id.toNat?, qos := ← qos.toNat?, retain := ← b01 retain,
+                                 dup := ← b01 dup, payload := b, plen := pl.length }
+    let fs := scripts.map scriptFn
+    let (h3, views) := c20Rounds (← rounds.toNat?) h2 fs p []
+    pure (String.intercalate " " views ++ " | caller=" ++ showView (h3.view p))
+  | "err" :: path :: targets => do
+    let (e, _) ← buildErr (path.splitOn ".")
+    let ts ← targets.mapM targetId
+    match e with
+    | none => pure "top=nil"
+    | some x =>
+      let bits := String.ofList (ts.map (fun t => if stdIs x t then '1' else '0'))
+      let top := match x with | .leaf i => (if i = eofId then "eof" else "leaf") | _ => "node"
+      pure s!"top={top} is={bits} retry={showBool (hasRetry x)} rto={showBool (stdAsRto x).isSome}"
   | ["rp", hex] => do
     let bs ← parseDesc hex
     let r := readPacket bs
